@@ -24,6 +24,7 @@ func queryAll() hx.T              { return do(hx.T{Name: "OQueryAll"}) }
 func stopDone(b bool) hx.T        { return do(hx.C("OStopDone", b)) }
 func hide(n int64) hx.T           { return do(hx.C("OHide", n)) }
 func show(n int64) hx.T           { return do(hx.C("OShow", n)) }
+func topo(k int64) hx.T           { return do(hx.C("OTopo", k)) }
 
 // Exec runs one case against a fresh real NodeCtrl.  NodeCtrl.Start arms a 3 s wall-clock
 // timer that would run checkRetireSupport on its own; a case normally takes a few
@@ -61,6 +62,7 @@ func execOnce(items []hx.T) (obs []any, nontrivial bool, tags []string) {
 	retiredSeen := map[int64]bool{}
 	hidden := map[int64]bool{}
 	retiredWhileHidden := false
+	dirState := "Working" // the node state the directory's copies of the own services carry
 	for _, it := range items {
 		if it.Name != "Do" {
 			continue
@@ -111,6 +113,25 @@ func execOnce(items []hx.T) (obs []any, nontrivial bool, tags []string) {
 				tg["show-again"] = true
 			}
 			delete(hidden, op.Int(0))
+		}
+		// topology rebuilds (OTopo, and OHide/OShow which also re-publish the own member) by the
+		// node state the own services are re-published with, and what follows them
+		switch op.Name {
+		case "OTopo", "OHide", "OShow":
+			tg["rebuild-while-"+state] = true
+			dirState = state
+			if op.Name == "OTopo" {
+				tg[fmt.Sprintf("topo-others-%d", op.Int(0))] = true
+			}
+		case "OCmd":
+			c := hx.AsTerm(op.Args[0]).Name
+			if (c == "CRetire" || c == "CWebRetire") && reply.Name == "ROk" && dirState != "Working" {
+				tg["retire-accepted-with-directory-saying-"+dirState] = true
+			}
+		case "OQuery", "OQueryAll":
+			if dirState != "Working" {
+				tg["query-with-directory-saying-"+dirState] = true
+			}
 		}
 		if len(hidden) > 0 {
 			switch op.Name {
@@ -208,19 +229,31 @@ func randomOp(cfg *hx.Config, toks []int64) hx.T {
 		return notify(tok())
 	case p < 91:
 		return svcOther(tok())
-	case p < 94:
+	case p < 93:
 		return stopDone(r.Intn(4) > 0)
-	case p < 97:
+	case p < 95:
 		return hide(tok())
-	default:
+	case p < 97:
 		return show(tok())
+	default:
+		return topo(int64(r.Intn(4)))
 	}
 }
 
-// around wraps an operation: with some probability a hosted service is unresolvable exactly
-// while the operation is handled (hide before, show after - sometimes much later or never).
+// around wraps an operation: with some probability the cluster topology is rebuilt right before
+// and/or right after it (another node joins or leaves: the own services are re-published with
+// the node's current state), or a hosted service is unresolvable exactly while the operation is
+// handled (hide before, show after - sometimes much later or never).
 func around(cfg *hx.Config, toks []int64, op hx.T, later *[]hx.T) []hx.T {
 	r := cfg.Rng
+	switch r.Intn(8) { // cluster membership changes right before / right after the operation
+	case 0:
+		return []hx.T{topo(int64(r.Intn(4))), op}
+	case 1:
+		return []hx.T{op, topo(int64(r.Intn(4)))}
+	case 2:
+		return []hx.T{topo(int64(r.Intn(4))), op, topo(int64(r.Intn(4)))}
+	}
 	if len(toks) == 0 || r.Intn(4) != 0 {
 		return []hx.T{op}
 	}
@@ -266,6 +299,13 @@ func genStory(cfg *hx.Config) []hx.T {
 	noise()
 	add(cmd(hx.Pick(r, []string{"CRetire", "CRetire", "CWebRetire"})))
 	noise()
+	if r.Intn(3) == 0 { // the operator repeats retire (a service missed it), maybe after a membership change
+		if r.Intn(2) == 0 {
+			items = append(items, topo(int64(1+r.Intn(3))))
+		}
+		add(cmd(hx.Pick(r, []string{"CRetire", "CWebRetire"})))
+		noise()
+	}
 	for _, i := range r.Perm(len(toks)) {
 		if r.Intn(10) == 0 {
 			continue // one service never reports
@@ -287,7 +327,7 @@ func genStory(cfg *hx.Config) []hx.T {
 		add(cmd("CExit"))
 	}
 	noise()
-	items = append(items, stopDone(r.Intn(4) > 0))
+	add(stopDone(r.Intn(4) > 0))
 	noise()
 	items = append(items, cmd("CWebNodes"))
 	return items
@@ -321,6 +361,9 @@ func enumerate(prefix []hx.T, alpha []hx.T, L int, emit func([]hx.T)) {
 }
 
 func Run(cfg *hx.Config) error {
+	if cfg.Scratch != "" {
+		scratch = cfg.Scratch
+	}
 	emit := func(kind string, items []hx.T) {
 		obs, nt, tags := Exec(items)
 		cfg.Emit(hx.Case{Kind: kind, Ops: items, Obs: obs, Nontrivial: nt, Tags: tags})
@@ -367,6 +410,22 @@ func Run(cfg *hx.Config) error {
 	alphaH2 := []hx.T{hide(2), show(2), cmd("CRetire"), retired(1), retired(2), cmd("CExit")}
 	for L := 0; L <= d3; L++ {
 		enumerate(hid2, alphaH2, L, func(c []hx.T) { emit(fmt.Sprintf("exhaustive-hide-2svc-%d", L), c) })
+	}
+	// cluster membership changing under the controller: the topology is rebuilt (own services
+	// re-published with the node's current state) at any point of the life cycle
+	d4, d5 := 4, 3
+	if cfg.Tier == "thorough" {
+		d4, d5 = 6, 4
+	}
+	top1 := []hx.T{host(1, dOk), queryAll()}
+	alphaT1 := []hx.T{topo(1), cmd("CRetire"), retired(1), cmd("CExit"), stopDone(true)}
+	for L := 0; L <= d4; L++ {
+		enumerate(top1, alphaT1, L, func(c []hx.T) { emit(fmt.Sprintf("exhaustive-topo-1svc-%d", L), c) })
+	}
+	top2 := []hx.T{host(1, dOk), host(2, dOk)}
+	alphaT2 := []hx.T{topo(2), topo(0), queryAll(), cmd("CRetire"), retired(1), notify(2), hide(2), show(2)}
+	for L := 0; L <= d5; L++ {
+		enumerate(top2, alphaT2, L, func(c []hx.T) { emit(fmt.Sprintf("exhaustive-topo-2svc-%d", L), c) })
 	}
 	for i := 0; i < cfg.N; i++ {
 		switch i % 4 {
